@@ -14,7 +14,7 @@
 //! labels = [0] get | [1,c] return | [2,c] take | [3,n] resize | [4] close | [5,bits,n] retain
 //!        | [6,c,api,q,oid..] prepare | [7,c,0,q,oid..] two concurrent prepares of one key
 //!        | [16,c,w,q,oid..] prepare through a Transaction wrapper (w = 3 transaction, 4 nested transaction,
-//!          5 savepoint, 6 build_transaction().start()), committed afterwards
+//!          5 savepoint, 6 build_transaction().start(), 7 / 8 the GenericClient trait on a Transaction), committed afterwards
 //!        | [8,c] statement_cache.clear | [9,c,0,q,oid..] statement_cache.remove
 //!        | [10] statement_caches.clear | [11,0,0,q,oid..] statement_caches.remove
 //!        | [12,c,f] next Query on c fails (1 ErrorResponse, 2 hang up) | [13,c,f] next Parse on c
@@ -443,7 +443,7 @@ impl Case {
         match l[0] {
             1 | 2 => self.held.contains_key(&c),
             6 | 7 | 8 | 9 => self.held.contains_key(&c) || self.taken.contains_key(&c),
-            16 => (self.held.contains_key(&c) || self.taken.contains_key(&c)) && (3..=6).contains(&l[2]) && self.via_ready(c),
+            16 => (self.held.contains_key(&c) || self.taken.contains_key(&c)) && (3..=8).contains(&l[2]) && self.via_ready(c),
             12 | 13 | 15 => c < self.sh.lock().unwrap().conns.len(),
             0 | 3 | 4 | 5 | 10 | 11 | 14 => true,
             _ => false,
@@ -560,6 +560,20 @@ impl Case {
                         3 => match cw.transaction().await {
                             Ok(tx) => {
                                 let r = tx.prepare_typed_cached(q, &tys).await;
+                                failed |= tx.commit().await.is_err();
+                                r
+                            }
+                            Err(e) => Err(e),
+                        },
+                        7 | 8 => match cw.transaction().await {
+                            // through the GenericClient trait implemented for Transaction
+                            Ok(tx) => {
+                                use deadpool_postgres::GenericClient;
+                                let r = if w == 8 && tys.is_empty() {
+                                    GenericClient::prepare_cached(&tx, q).await
+                                } else {
+                                    GenericClient::prepare_typed_cached(&tx, q, &tys).await
+                                };
                                 failed |= tx.commit().await.is_err();
                                 r
                             }
@@ -806,7 +820,7 @@ fn gen_label(rng: &mut Rng, cs: &Case, profile: Profile, used: &mut Vec<Vec<i64>
             let c = pick(rng, &users);
             // sometimes through one of the Transaction wrappers (only on a connection without a pending fault)
             let mut v = if rng.chance(30) && cs.via_ready(c as usize) {
-                vec![16, c, 3 + rng.below(4) as i64]
+                vec![16, c, 3 + rng.below(6) as i64]
             } else {
                 vec![6, c, api]
             };
